@@ -419,14 +419,16 @@ def times_ratio(term, q, r):
 
 
 
-def iterator_chain(F, chain, depth=0):
+def iterator_chain(F, chain, depth=0, info=None):
     """An iterator-adaptor chain read stage by stage: -> (source term, element term reaching the consumer, [(condition on the
     source element, kind, closure id)] for filter / take_while stages, skip start, reversed?) or None when a stage is not
     modelled. The source element is ('elem', source), its enumerate index ('eidx', source)."""
     from mir import closure_summary, summary, subst
     stages = []
     x = chain
-    while isinstance(x, tuple) and x and x[0] == "call" and x[2]:
+    ADAPTORS = ("iter", "into_iter", "by_ref", "copied", "cloned", "iter_mut", "peekable", "fuse", "enumerate", "skip", "rev", "filter",
+                "take_while", "skip_while", "map", "inspect", "take", "step_by", "filter_map", "flat_map", "chain", "zip", "flatten")
+    while isinstance(x, tuple) and x and x[0] == "call" and x[2] and parse_callee(x[1])[2] in ADAPTORS:
         stages.append((parse_callee(x[1])[2], x))
         x = x[2][0]
     source = x
@@ -435,16 +437,22 @@ def iterator_chain(F, chain, depth=0):
     pending = []
     start = None
     rev = False
+    dropped = []        # stages before `enumerate` after which a position in the stream is no longer the position in the source
     for m, call in reversed(stages):
         args = call[2]
         if m in ("iter", "into_iter", "by_ref", "copied", "cloned", "iter_mut", "peekable", "fuse"):
             continue
         if m == "enumerate":
+            if info is not None:
+                info["enumerate"] = True
+                info["misaligned_by"] = list(dropped)
             el = ("tuple", (SRC_I, el))
         elif m == "skip" and len(args) == 2:
             start = args[1]
+            dropped.append("skip")
         elif m == "rev":
             rev = True
+            dropped.append("rev")
         elif m in ("filter", "take_while", "skip_while", "map", "inspect") and len(args) == 2:
             clo = args[1]
             if isinstance(clo, tuple) and clo and clo[0] == "closure" and clo[1] in F.bodies:
@@ -459,6 +467,8 @@ def iterator_chain(F, chain, depth=0):
                 res = subst(summ, [el])
             else:
                 return None
+            if m in ("filter", "skip_while"):
+                dropped.append(m)
             if m in ("filter", "take_while"):
                 pending.append((res, m, clo[1]))
             elif m == "map":
@@ -491,7 +501,8 @@ class Pipeline:
         recv = tb.operand(t["args"][0])
         self.elem = ("some", tb.call_term(t))
         chain = recv[2] if isinstance(recv, tuple) and recv and recv[0] == "var" and len(recv) > 2 else recv
-        res = iterator_chain(F, chain)
+        self.info = {}
+        res = iterator_chain(F, chain, info=self.info)
         if res is None:
             return
         self.source, el, pending, self.start, self.reversed = res
@@ -516,6 +527,9 @@ class Pipeline:
                 return y
             return go(term)
         self.components = {str(k): to_B(cpt) for k, cpt in enumerate(comps)} if comps else {}
+        # the component that carries the enumerate index, and whether that index is the element's position in the source
+        self.index_component = next((str(k) for k, cpt in enumerate(comps or []) if cpt == SRC_I), None)
+        self.index_misaligned_by = self.info.get("misaligned_by", [])
         self.guards = [(to_B(cond), kind, cid) for cond, kind, cid in pending]
         self.start_is_after = None
         self.ok = True
@@ -532,6 +546,37 @@ class Pipeline:
                 return tuple(go(z) if isinstance(z, tuple) else z for z in y)
             return y
         return go(term)
+
+
+KEYED_METHODS = ("get", "get_mut", "remove", "index", "index_mut", "insert", "entry", "contains_key", "get_unchecked")
+
+
+def misaligned_index_keys(R, bodies):
+    """Loops `for (k, x) in src.iter().filter(p).enumerate()` (or skip / skip_while / rev before the enumerate) whose index k is
+    then used as a key or position (get / remove / index / insert / entry): k counts the elements that survived the earlier
+    stages, not positions in `src`, so it addresses another element's entry as soon as one element is dropped.
+    -> ([(body, block, callee, dropping stages)], number of enumerate indices used as keys that ARE source positions)"""
+    out = []
+    aligned = 0
+    for b in bodies:
+        tb = R.terms(b, 0)
+        for h, bl in b.loops():
+            p = loop_pipeline(b, tb, h)
+            if p is None or p.index_component is None:
+                continue
+            idx = ("field", p.elem, p.index_component)
+            for i, t in b.calls():
+                if i not in bl or parse_callee(t["callee"])[2] not in KEYED_METHODS:
+                    continue
+                for a in t["args"][1:]:
+                    term = tb.operand(a)
+                    if any(x == idx for x in subterms(term)):
+                        if p.index_misaligned_by:
+                            out.append((b, i, t["callee"], list(p.index_misaligned_by)))
+                        else:
+                            aligned += 1
+                        break
+    return out, aligned
 
 
 def loop_pipeline(b, tb, bb):
